@@ -182,6 +182,12 @@ func RunC17(r *core.Run) {
 				x.l.Init(make([]sipsp.URIParam, pc))
 				ob = x
 			}
+			if pc > 0 && rr.Intn(3) == 0 {
+				// the list object was used before: a prefix of another list, then Reset()
+				ol := gen.ParamList(rr, gen.PLOptsFor(eff, rr)).Raw
+				core.Guard(func() { ob.Call(ol[:rr.Intn(len(ol)+1)], 0); ob.Reset() })
+				w.Inc("lists_on_reused_objects")
+			}
 			nn, e, _, pan := drive(ob, buf, 0, cuts)
 			w.Eval(1)
 			fail := func(cls, what, fnd string) {
